@@ -7,6 +7,8 @@ import Csverif.Driver.Monitor
    model lines (differential tie of Model/Hints.lean):
      ev <oidIsPath T|F> <force T|F> <otherChanged> <now> | <side> | <truth>* | <event> <t> | <event> <t> ...
         -> `<raised T|F>* | <side after the events> | <side after get_latest>`
+     fnf <priority> <providerHasParent T|F> <parent path> | <side> | <side> ...
+        -> `toomany` | `inject` | `noinfo` | `use <oid of the entry taken for the parent>`
      pe <fromWalk T|F> | <event> | <side> | <side> ...
         -> `dropped` | `noop` | `update <event>`
    side  = oid path hash ex saved otype changed lastGotten ign     (strings: Wire.encStr, None = ~)
@@ -120,6 +122,15 @@ def step (toks : List String) : String :=
       | .walkNoop => "noop"
       | .update e' => s!"update {encEvent e'}"
     | _, _, _ => "bad-arg"
+  | ["fnf", prio, has, parent] :: sides =>
+    match prio.toNat?, decBool has, decS parent, sides.mapM decSide with
+    | some prio, some has, some (some parent), some idx =>
+      match fnfParent false idx parent prio has with
+      | .tooManyRetries => "toomany"
+      | .injectParent => "inject"
+      | .noInfo => "noinfo"
+      | .useEntry k => s!"use {encS k.oid}"
+    | _, _, _, _ => "bad-arg"
   | [["c14"], al, ar, bl, br, ca, cb] =>
     match decTree al, decTree ar, decTree bl, decTree br with
     | some al, some ar, some bl, some br =>
